@@ -5,6 +5,7 @@ import (
 	"encoding/json"
 	"fmt"
 	"net"
+	"os"
 	"sort"
 	"strings"
 	"sync"
@@ -12,6 +13,7 @@ import (
 
 	"github.com/openconfig/gnmi/proto/gnmi"
 	"github.com/sdcio/data-server/pkg/config"
+	schemaClient "github.com/sdcio/data-server/pkg/datastore/clients/schema"
 	"github.com/sdcio/data-server/pkg/datastore/target"
 	sdcpb "github.com/sdcio/sdc-protos/sdcpb"
 	"google.golang.org/grpc"
@@ -660,3 +662,19 @@ func (t *GNMITee) TakeErrs() []string {
 func (t *GNMITee) Sync(ctx context.Context, c *config.Sync, ch chan *target.SyncUpdate) {}
 func (t *GNMITee) Status() *target.TargetStatus                                        { return t.Real.Status() }
 func (t *GNMITee) Close() error                                                        { return t.Real.Close() }
+
+// GNMIWrap returns a HistEnvOpts.WrapTarget that puts the real gnmiTarget (encoding enc) and an in-process gNMI
+// device next to the recording device; *out receives the tee. The caller stops (*out).GDev when the case ends.
+func GNMIWrap(ctx context.Context, env *Env, enc string, out **GNMITee) func(dev *Device) target.Target {
+	return func(dev *Device) target.Target {
+		gdev := NewGNMIDevice(dev.Snapshot())
+		scb := schemaClient.NewSchemaClientBound(SchemaRef(), env.SchemaClient)
+		real, err := target.New(ctx, "gnmi-tee", &config.SBI{Type: "gnmi", Address: "bufnet", Port: 1, GnmiOptions: &config.SBIGnmiOptions{Encoding: enc}}, scb, gdev.DialOpts()...)
+		if err != nil {
+			fmt.Fprintf(os.Stderr, "HARNESS-ERROR gnmi target over bufconn: %v\n", err)
+			os.Exit(2)
+		}
+		*out = &GNMITee{Dev: dev, Real: real, GDev: gdev}
+		return *out
+	}
+}
